@@ -26,6 +26,44 @@ pub fn run(op: &str, args: &[&str]) -> Option<String> {
                 _ => return None,
             })
         }
+        // bigcoll KIND N: a collection of the N elements 0..N (u32; maps: k -> k as u8), inserted in a scrambled order;
+        // the generated values of the catalogue never have more than ~20 elements, so the upper bytes of every
+        // length prefix other than Vec's are exercised only here.
+        //   -> "ok prefix=HEX len=BYTES rt=same|diff elems=ascending|other"
+        #[cfg(feature = "cfg_std")]
+        ("bigcoll", [kind, n]) => {
+            use std::collections::{BTreeMap, BTreeSet, HashMap, HashSet, LinkedList, VecDeque};
+            let n: u32 = n.parse().ok()?;
+            let order: Vec<u32> = (0..n).map(|i| ((i as u64 * 2654435761u64) % n.max(1) as u64) as u32).collect();
+            // (a permutation when n is coprime with the multiplier; duplicates only make the collection smaller, and then
+            //  `len` below tells: the Python side expects exactly n elements and picks n accordingly)
+            fn fin<T: borsh::BorshSerialize + borsh::BorshDeserialize + PartialEq>(x: &T, elem: usize) -> Option<String> {
+                let b = borsh::to_vec(x).ok()?;
+                let back: T = borsh::from_slice(&b).ok()?;
+                let body = &b[4.min(b.len())..];
+                // the first u32 of every element, read back from the bytes, must ascend for the sorted kinds
+                let firsts: Vec<u32> = body.chunks(elem).filter(|c| c.len() == elem).map(|c| u32::from_le_bytes([c[0], c[1], c[2], c[3]])).collect();
+                let asc = firsts.windows(2).all(|w| w[0] < w[1]);
+                Some(format!(
+                    "ok prefix={} len={} rt={} elems={}",
+                    b.iter().take(4).map(|x| format!("{:02x}", x)).collect::<String>(),
+                    b.len(),
+                    if &back == x { "same" } else { "diff" },
+                    if asc { "ascending" } else { "other" }
+                ))
+            }
+            match *kind {
+                "btreeset" => fin(&order.iter().cloned().collect::<BTreeSet<u32>>(), 4),
+                "hashset" => fin(&order.iter().cloned().collect::<HashSet<u32>>(), 4),
+                "indexset" => fin(&order.iter().cloned().collect::<indexmap::IndexSet<u32>>(), 4),
+                "list" => fin(&order.iter().cloned().collect::<LinkedList<u32>>(), 4),
+                "deque" => fin(&order.iter().cloned().collect::<VecDeque<u32>>(), 4),
+                "btreemap" => fin(&order.iter().map(|k| (*k, *k as u8)).collect::<BTreeMap<u32, u8>>(), 5),
+                "hashmap" => fin(&order.iter().map(|k| (*k, *k as u8)).collect::<HashMap<u32, u8>>(), 5),
+                "indexmap" => fin(&order.iter().map(|k| (*k, *k as u8)).collect::<indexmap::IndexMap<u32, u8>>(), 5),
+                _ => None,
+            }
+        }
         // hugeseq KIND: a byte collection of exactly 2^32 elements (4 GiB of untouched zero pages) serialized into a
         // writer that only counts: the length does not fit the u32 prefix, the specification has no encoding for it.
         // -> "err KIND MSG" | "ok <bytes written>"
